@@ -419,4 +419,11 @@ example : (runOps exCfg Storage.empty exOps).isSome = true := by decide
 example : ((runOps exCfg Storage.empty exOps).map (fun s => (s.dbAccepted, pids s, s.dbPending, s.min))) =
     some ([1, 3], [], [], 13) := by decide
 
+/-! boundary: a chunk with expiry 0 is never tracked by the expiry map (`EMap.add` ignores time 0):
+it stays pending in memory *and* on disk across minimum advances, so it survives a reopen. -/
+def zCfg : Cfg := { U := fun i => ⟨1, if i = 13 then 0 else 10, 100, true⟩, window := 20, limit := 1000, maxSkew := 30 }
+def zOps : List Op := [.verifyRemote 13, .addLocal 1 none, .setMin 4 [], .reopen, .setMin 12 [], .reopen]
+example : ((runOps zCfg Storage.empty zOps).map (fun s => (pids s, s.dbPending, s.min, s.sizes 1))) =
+    some ([13], [13], 12, 100) := by decide
+
 end HyperModel.Props.C36
